@@ -74,6 +74,11 @@ def cases(tier, seed):
     for name in msggen.CLASS_NAMES:
         for flag in (0x0000, 0x0102) + ((0xFFFF, 0x0100) if thorough else ()):
             yield {'cls': name, 'maxlen': 70, 'dslen': 9, 'mode': 'memory', 'flag': flag}
+    for name, mode in (('CStoreRQMessage', 'memory'), ('CFindRSPMessage', 'memory'), ('CStoreRQMessage', 'tempfile'), ('CStoreRQMessage', 'directory')):
+        for ml in (70, 16384):
+            c = {'cls': name, 'maxlen': ml, 'mode': mode, 'empty_last': True}
+            c.update({'dslen': 2 * (ml - 6)} if mode == 'memory' and ml < 100 else {'dslen': 9} if mode == 'memory' else {'ts': IMPLICIT, 'pad': 37})
+            yield c
     # a long fragment list: deviation-bounded compositions
     yield {'cls': 'CStoreRQMessage', 'maxlen': 12, 'dslen': 40, 'mode': 'memory'}
     yield {'cls': 'CFindRSPMessage', 'maxlen': 14, 'dslen': 9, 'mode': 'memory'}
@@ -189,6 +194,12 @@ def run_case(case):
         msg.command_set.CommandDataSetType = case['flag']
     msg.set_length()
     frags = [p.data_value_items[0] for p in msg.encode(pc, ml)]
+    if case.get('empty_last') and raw:
+        # a sender that finds out that the data set has ended only after the last full fragment went out: the stream ends with a
+        # fragment that carries the last-fragment flag and no data
+        lastf = frags[-1]
+        frags[-1:] = [P.PresentationDataValueItem(lastf.context_id, b'\x00' + lastf.data_value[1:]),
+                      P.PresentationDataValueItem(lastf.context_id, b'\x02')]
     n = len(frags)
     sent_cmd = {int(e.tag): e.value for e in msg.command_set}
     tmpdir = None
@@ -383,7 +394,7 @@ def run_case(case):
     finally:
         if tmpdir:
             shutil.rmtree(tmpdir, ignore_errors=True)
-    return {'viol': viol[:30], 'case': case if viol else None, 'key': (name, n, mode, ml, case.get('ts'), case.get('pad', case.get('dslen')), case.get('lean'), case.get('flag')),
+    return {'viol': viol[:30], 'case': case if viol else None, 'key': (name, n, mode, ml, case.get('ts'), case.get('pad', case.get('dslen')), case.get('lean'), case.get('flag'), case.get('empty_last')),
             'count': {'compositions': ncomp, 'reassemblies_checked': keys},
             'sample': dict(case, fragments=n, compositions=ncomp) if name in ('CStoreRQMessage',) and ml in (40, 12, 100) else None}
 
